@@ -336,6 +336,11 @@ func c03Sequences(w *mon.W, idx int) {
 // c03Cold: the first index calls of the process use the masks and paths that look like "nothing yet"
 // values: mask 1 with the root, the full height-30 mask with the all-right leaf, zero-ish paths.
 func c03Cold(w *mon.W, _ int) {
+	cl := coldPick(coldPathCalls(), "PathToIndex", "PathToIndexLoose")
+	if !coldFirst(w, cl) {
+		return
+	}
+	defer coldLast(w, cl)
 	cases := []struct {
 		mask   uint32
 		l      int
